@@ -307,6 +307,8 @@ class Module:
         self.tree = rw.visit(tree)
         from .normalise import inline_single_use_helpers, swap_negated_returns, filtered_loops_to_if, guard_continue_to_if, substitute_stable_locals
         self.inlined_helpers = inline_single_use_helpers(self.tree)
+        from .normalise import inline_helpers_v2
+        self.inlined_helpers += inline_helpers_v2(self.tree)
         filtered_loops_to_if(self.tree)
         guard_continue_to_if(self.tree)
         substitute_stable_locals(self.tree)
